@@ -11,8 +11,9 @@ LEMMAS = ["tv_nonneg", "tv_le_one", "hell2_nonneg", "hell2_le_one", "chi2_nonneg
           "weighted_nonneg", "weighted_le_one"]
 
 
-def obligations(tier):
-    src = os.path.join(ROOT, "lean", "Distances.lean")
+def obligations(tier, file="Distances.lean", lemmas=None, fn="specs.gemini.D"):
+    lemmas = LEMMAS if lemmas is None else lemmas
+    src = os.path.join(ROOT, "lean", file)
     text = open(src).read()
     t0 = time.time()
     env = dict(os.environ)
@@ -20,16 +21,16 @@ def obligations(tier):
         r = subprocess.run(["lake", "env", "lean", src], cwd="/opt/veriftools/mathlib4", capture_output=True, text=True,
                            timeout=1500, env=env)
         out = (r.stdout + r.stderr)[-3000:]
-        ok = r.returncode == 0 and "error" not in out and "sorry" not in out.lower()
+        ok = r.returncode == 0 and "error" not in out and "sorry" not in out.lower() and "axiom" not in text and "admit" not in text
         status = PROVED if ok else UNDECIDED
     except (subprocess.TimeoutExpired, FileNotFoundError) as e:
         out, status = repr(e), UNDECIDED
     dt = time.time() - t0
     obs = []
-    for nm in LEMMAS:
+    for nm in lemmas:
         present = f"theorem {nm}" in text
         st = status if present and "sorry" not in text else UNDECIDED
-        obs.append(Ob(f"lean:{nm}", st, "lean4+mathlib", "P", {"file": "lean/Distances.lean", "compile_s": round(dt, 1),
+        obs.append(Ob(f"lean:{nm}", st, "lean4+mathlib", "P", {"file": "lean/" + file, "compile_s": round(dt, 1),
                                                                   "output": out if st != PROVED else ""},
-                      time_s=dt / len(LEMMAS), fn="specs.gemini.D"))
+                      time_s=dt / len(lemmas), fn=fn))
     return obs
